@@ -81,7 +81,7 @@ func (w *World) declareSpecFun(x *Exec, sf *SpecFun) {
 }
 
 func (x *Exec) blankState() *State {
-	st := &State{heaps: map[string]Term{}, heapTop: map[string]Term{}, ghost: map[string]Term{}, fresh: map[string]bool{}, closures: map[string]*FuncVal{},
+	st := &State{heaps: map[string]Term{}, heapTop: map[string]Term{}, fwd: map[string]map[string]Term{}, ghost: map[string]Term{}, fresh: map[string]bool{}, closures: map[string]*FuncVal{},
 		doneOf: map[string]Term{}, loopsEntered: map[*ssa.BasicBlock]bool{}, iters: map[string]*IterVal{}}
 	st.top = x.D.Const("top0", SInt)
 	return st
